@@ -317,6 +317,9 @@ def r4_per_instance_state(ctx: Ctx) -> None:
         ctors = [c for c in calls_in(fn.node) if call_name(c) == "Scanner"]
         for c in ctors:
             ctx.count("scanner_sites")
+            if any(isinstance(s, ast.Call) and isinstance(s.func, ast.Attribute) and s.func.attr == "scan" and s.func.value is c for s in calls_in(fn.node)):
+                ctx.ok(f"{fn.where}:Scanner()", "a fresh scanner is scanned once in place: Scanner(...).scan(...)")
+                continue
             bind = [n for n in walk_no_nested(fn.node) if isinstance(n, ast.Assign) and n.value is c and isinstance(n.targets[0], ast.Name)]
             scans = [s for s in calls_in(fn.node) if bind and call_name(s) == f"{unparse(bind[0].targets[0])}.scan"]
             in_loop = any(isinstance(p, (ast.For, ast.While)) and any(x is s for s in scans for x in ast.walk(p)) and not any(x is c for x in ast.walk(p)) for p in walk_no_nested(fn.node))
